@@ -381,3 +381,29 @@ func Harness_C21_col_n2_ps2_asc()  { c21Walk(2, 2, paginate.OrderAsc) }
 func Harness_C21_col_n0_ps2_desc() { c21Walk(0, 2, paginate.OrderDesc) }
 func Harness_C21_col_n5_ps2_desc() { c21Walk(5, 2, paginate.OrderDesc) }
 func Harness_C21_col_n5_ps1_asc()  { c21Walk(5, 1, paginate.OrderAsc) }
+
+// the LIMIT / OFFSET the paginators ask for, for every page size (symbolic): pageSize+1 rows from the cursor position
+func Harness_C21_limit_for_any_page_size_column() {
+	ps := nondetUint64("pageSize")
+	verifAssume(ps >= 1 && ps <= 1<<31-2)
+	order := []paginate.Order{paginate.OrderAsc, paginate.OrderDesc}[nondetChoice("order", 2)]
+	all := c21Items(2)
+	q := ColumnPaginatedQuery[any]{InitialPaginatedQuery: InitialPaginatedQuery[any]{Column: "id", Order: &order, PageSize: ps}}
+	_, err := c21Fetch(all, q)
+	verifAssert("C21:build-cursor-succeeds", err == nil)
+	verifAssert("C21:statement-asks-for-page-size-plus-one-rows", verifBunCount("Limit") == 1 && verifBunInt("Limit", 0) == int(ps)+1)
+	verifReach("end")
+}
+
+func Harness_C21_limit_for_any_page_size_offset() {
+	ps, off := nondetUint64("pageSize"), nondetUint64("offset")
+	verifAssume(ps >= 1 && ps <= 1<<31-2 && off <= 1<<31-1)
+	order := []paginate.Order{paginate.OrderAsc, paginate.OrderDesc}[nondetChoice("order", 2)]
+	all := c21Items(2)
+	q := OffsetPaginatedQuery[any]{InitialPaginatedQuery: InitialPaginatedQuery[any]{Column: "address", Order: &order, PageSize: ps}, Offset: off}
+	_, err := c21Fetch(all, q)
+	verifAssert("C21:build-cursor-succeeds", err == nil)
+	verifAssert("C21:statement-asks-for-page-size-plus-one-rows", verifBunCount("Limit") == 1 && verifBunInt("Limit", 0) == int(ps)+1)
+	verifAssert("C21:statement-skips-offset-rows", (off == 0 && verifBunCount("Offset") == 0) || (verifBunCount("Offset") == 1 && verifBunInt("Offset", 0) == int(off)))
+	verifReach("end")
+}
